@@ -447,7 +447,10 @@ func trackApp(l *loopInst, ops string, before map[string][]byte) {
 			// only what really is in the application's DBI now counts as its committed write
 			if cur, ok := app[k]; ok && bytes.Equal(cur, mustUnhx(f[3])) {
 				if old, was := before[k]; was && bytes.Equal(old, cur) {
-					continue // the key already held this value: no effect, nothing new to track
+					// the key already held this value: nothing new to track, but LMDB records
+					// the transaction, and the loop may upload because of it
+					changed = true
+					continue
 				}
 				if sv, ok := logical[k]; !l.native && ok && !sv.del && bytes.Equal(sv.val, cur) {
 					// rewriting the value the shadow already holds is not a change Lightning Stream can see
